@@ -29,7 +29,7 @@ def body(c):
                          + "".join(f"INVARIANT {i}\n" for i in ["NonSaturating", "StepBound", "ZpFits", "GroupIsPerAxis", "GroupCountOK"])
                          + "CHECK_DEADLOCK FALSE\n")
     c.mc("QAff", aff, workers=12, require_actions=["Reduce", "ScaleZp", "Quantize", "DoGroup"])
-    tr = c.harness("h_qnum.py", {"mode": "range", "seed": c.seed, "reps": 1 if c.quick else 5, "tlc_cases": cases})["traces"]
+    tr = c.harness("h_qnum.py", {"mode": "range", "seed": c.seed, "reps": 1 if c.quick else 25, "tlc_cases": cases})["traces"]
     tr = c.screen(tr, "Trace_QNum", chunk=60, constants=devs)
     res = c.validate("Trace_QNum", tr, chunk=60, constants=devs)
     c.judge(tr, res, describe=lambda t: {k: t[0].get(k) for k in ("act", "which", "qt", "fmt", "axis", "gs", "shape", "relation")})
